@@ -11,7 +11,8 @@ use graphrs::algorithms::shortest_path::ShortestPathInfo;
 use std::collections::{BTreeMap, BTreeSet, HashMap};
 
 pub struct Built {
-    pub g: G,
+    /// boxed: the graph stays at one address from its first operation to the last judged call
+    pub g: Box<G>,
     pub snap: Snap,
 }
 
@@ -20,16 +21,19 @@ pub struct Built {
 /// operations, a battery of read-only calls is made on that very object (weighted and unweighted, whole graph and
 /// subsets), and only then are the remaining operations applied. Whatever a query memoises on the graph object or
 /// on the thread must not survive the mutation that follows: the judged calls run on the finished graph.
-fn build_with_reads_in_between(case: &Case, cx: &mut Ctx) -> Result<G, crate::core::rt::Panicked> {
+fn build_with_reads_in_between(case: &Case, cx: &mut Ctx) -> Result<Box<G>, crate::core::rt::Panicked> {
     let len = case.ops.len();
-    if case.seed % 5 != 2 || len < 2 {
-        return real::build(case.specs, &case.ops);
+    // dense graphs whose last operations replace weights in place (same counts, same object): always queried just
+    // before those replacements
+    let forced = case.p_u64("reads_before_last").map(|t| t as usize).filter(|t| *t >= 1 && *t < len);
+    if forced.is_none() && (case.seed % 5 != 2 || len < 2) {
+        return real::build(case.specs, &case.ops).map(Box::new);
     }
-    let tail = 1 + (case.seed / 5 % 3) as usize;
+    let tail = forced.unwrap_or(1 + (case.seed / 5 % 3) as usize);
     let split = len.saturating_sub(tail).max(1);
-    let mut g = real::build(case.specs, &case.ops[..split])?;
+    let mut g = Box::new(real::build(case.specs, &case.ops[..split])?);
     if let Ok(snap) = Snap::of(&g) {
-        if snap.n() >= 1 && snap.n() <= 400 {
+        if snap.n() >= 1 && snap.n() <= if forced.is_some() { 1000 } else { 400 } {
             reads_on(&g, &snap, case, cx);
         }
     }
@@ -47,6 +51,7 @@ fn reads_on(g: &G, snap: &Snap, case: &Case, cx: &mut Ctx) {
     let b = crate::core::rt::budget(snap.n(), snap.edges.len());
     let sums_finite = (2.0 * snap.edges.iter().map(|e| e.2.abs()).sum::<f64>()).powi(2).is_finite();
     let w = !snap.edges.is_empty() && snap.weighted() && all_positive(snap) && comparable_scale(snap) && sums_finite;
+    let w_pos = !snap.edges.is_empty() && snap.weighted() && all_positive(snap);
     let first = snap.names[0].clone();
     let some: Vec<String> = snap.names.iter().take(3).cloned().collect();
     let mut done = 0u64;
@@ -71,9 +76,11 @@ fn reads_on(g: &G, snap: &Snap, case: &Case, cx: &mut Ctx) {
         read!("between:betweenness", betweenness::betweenness_centrality(g, weighted, false));
         read!("between:closeness", closeness::closeness_centrality(g, weighted, true));
         if !snap.multi {
-            read!("between:clustering", cluster::clustering(g, weighted, None));
-            read!("between:clustering(subset)", cluster::clustering(g, weighted, Some(&some)));
-            read!("between:average_clustering", cluster::average_clustering(g, weighted, Some(&some), false));
+            // weighted clustering normalises by the largest weight: no sums, so incomparable scales are fine here
+            let wc = if weighted || (w_pos && !w) { w_pos } else { false };
+            read!("between:clustering", cluster::clustering(g, wc, None));
+            read!("between:clustering(subset)", cluster::clustering(g, wc, Some(&some)));
+            read!("between:average_clustering", cluster::average_clustering(g, wc, Some(&some), false));
             read!("between:eigenvector", eigenvector::eigenvector_centrality(g, weighted, Some(30), Some(1e-6)));
         }
         let singles: Vec<std::collections::HashSet<String>> = snap.names.iter().map(|x| [x.clone()].into_iter().collect()).collect();
@@ -215,6 +222,10 @@ impl AlgoGen {
             let mut case = Case::new(prop, seed, specs);
             case.ops = ops;
             case.params.put("source", J::s("dense graph with thousands of edges"));
+            let tail = case.ops.iter().rev().take_while(|o| matches!(o, Op::AddEdge(_))).count();
+            if tail >= 1 && hr.chance(3, 4) {
+                case.params.put("reads_before_last", J::U(tail as u64));
+            }
             case.params.put("regime", J::s(&format!("{:?}", regime)));
             case.envs = gen::keyings(seed, self.keyings).into_iter().enumerate().map(|(i, k)| Env { keying: k, pool: if hr.chance(1, 8) { 1 } else { 2 + hr.below(15) }, sched: crate::core::rng::mix(seed, 0x5c + i as u64) }).collect();
             return case;
